@@ -35,6 +35,11 @@ def _run_method(repo, name, selfspec, args, models, watch=("_sequence",)):
 
 
 def run(check, ctx, cipher_self, MODELS):
+    run_seq(check, ctx, cipher_self, MODELS)
+    run_rest(check, ctx, cipher_self, MODELS)
+
+
+def run_seq(check, ctx, cipher_self, MODELS):
     repo = ctx.repo
     mod = repo.module(HP)
     SEQ = 5
@@ -109,6 +114,12 @@ def run(check, ctx, cipher_self, MODELS):
     check.ob("X1", "X1|hpke.unseal", not badc, mod.path, fn.lineno,
              extracted="exception classes of unseal(): %s" % sorted(set(o.exc for o in res.raises())),
              expected="failures surface as ValueError")
+    check.floor("N", 8)
+
+
+def run_rest(check, ctx, cipher_self, MODELS):
+    repo = ctx.repo
+    mod = repo.module(HP)
     # the tag split: ct[:-Nt], ct[-Nt:]
     f = repo.func(mod, "HPKE_Cipher.unseal")
     calls = [n for n in ast.walk(f) if isinstance(n, ast.Call) and norm(n.func).endswith("decrypt_and_verify")]
@@ -233,7 +244,6 @@ def run(check, ctx, cipher_self, MODELS):
                       "psk_pair": (b"", b""), "info": b"", "aead_id": aead, "mode": 0},
                 self_obj=OBJ((HP, "HPKE_Cipher"), _havoc=False), max_depth=1, rule="K",
                 what="(Nk, Nn, Nt, kem_id, kdf_id, 2^(8 Nn)-1)", cite="RFC 9180 7.1-7.3, 5.2"))
-    check.floor("N", 8)
     # ---- kem_context = enc || pkRm [|| pkSm] on both sides (RFC 9180 4.1) -------------
     from .C15 import rfc_extract_and_expand
 
